@@ -516,7 +516,8 @@ def check_goal(st, name, goal, exact=True, kind='post', want_smt2=False, concret
             return Result(name, 'proved', time.time() - t0, detail='vacuous: path infeasible', kind=kind)
         model = None
         if r == z3.sat and concretise is not None:
-            model = safe_concretise(concretise, st.solver.model())
+            first = st.solver.model()
+            model = safe_concretise(concretise, small_model(st) or first)
         return Result(name, 'refuted' if r == z3.sat else 'undecided', time.time() - t0,
                       detail='goal is False on a feasible path', model=model, kind=kind)
     smt2 = None
@@ -535,12 +536,44 @@ def check_goal(st, name, goal, exact=True, kind='post', want_smt2=False, concret
         if r == z3.sat:
             model = None
             if concretise is not None:
-                model = safe_concretise(concretise, st.solver.model())
+                first = st.solver.model()
+                model = safe_concretise(concretise, small_model(st) or first)
             return Result(name, 'refuted', dt, detail='counter-model found', model=model, smt2=smt2, kind=kind)
         return Result(name, 'undecided', dt, detail='solver: %s' % st.solver.reason_unknown(), smt2=smt2,
                       kind=kind)
     finally:
         st.solver.pop()
+
+
+_SMALL_CALLS = 0
+
+
+def small_model(st):
+    """The solver's counter-model is arbitrary (strings of 2^60 characters are common); a second query asks for one whose
+    byte strings and texts are short, so that it can be materialised and replayed.  None when there is none / no time."""
+    global _SMALL_CALLS
+    _SMALL_CALLS += 1
+    if _SMALL_CALLS > 40:        # per worker process and unit batch: replays are capped per clause anyway
+        return None
+    lens = []
+    for t in st.keep:
+        if z3.is_expr(t) and t.sort() == sym.BytesS:
+            lens.append(sym.blen(t))
+        elif z3.is_expr(t) and t.sort() == sym.StrS:
+            lens.append(sym.nchars(t))
+    if not lens:
+        return None
+    for bound in (6, 300, 70000):
+        st.solver.push()
+        try:
+            st.solver.add(z3.And([l <= bound for l in lens]))
+            if st.check() == z3.sat:
+                return st.solver.model()
+        except Exception:
+            pass
+        finally:
+            st.solver.pop()
+    return None
 
 
 def safe_concretise(fn, model):
@@ -567,6 +600,8 @@ class Verifier:
 
     def verify(self, c, only=None):
         """All obligations of contract c: returns (results, stats)."""
+        global _SMALL_CALLS
+        _SMALL_CALLS = 0
         results = []
         stats = {'paths': 0, 'queries': 0, 'instances': 0, 'cases_hit': set(), 'out_of_subset': [], 'callees': set()}
         if c.trusted or c.bounded_only:
@@ -845,6 +880,26 @@ def concretise_value(st, v, m):
         return {k: concretise_value(st, x, m) for k, x in v.items()}
     if isinstance(v, SCond):
         return concretise_value(st, v.a if z3.is_true(ev(v.cond)) else v.b, m)
+    if isinstance(v, SOpaque) and v.kind in ('datetime_naive', 'datetime_aware', 'struct_time'):
+        # the time model speaks about whole seconds since the epoch (and the UTC offset of an aware value) only
+        import datetime as _dt
+        import time as _time
+        from spec import wire as _w
+        try:
+            s = ev(_w.dt_seconds(v.t)).as_long()
+            if not 0 <= s <= 253402300799:
+                return {'__abstract__': '%s %d s from the epoch' % (v.kind, s)}
+            if v.kind == 'struct_time':
+                return _time.gmtime(s)
+            if v.kind == 'datetime_naive':
+                return _dt.datetime(1970, 1, 1) + _dt.timedelta(seconds=s)
+            off = ev(_w.dt_utcoffset(v.t)).as_long()
+            if not -86400 < off < 86400:
+                off = 19800 if off > 0 else -18000
+            tz = _dt.timezone(_dt.timedelta(seconds=off))
+            return (_dt.datetime(1970, 1, 1, tzinfo=_dt.timezone.utc) + _dt.timedelta(seconds=s)).astimezone(tz)
+        except Exception:
+            return {'__abstract__': v.kind}
     if isinstance(v, (SFloat, SOpaque)):
         return {'__abstract__': getattr(v, 'kind', 'float')}
     return v
